@@ -17,10 +17,42 @@ def program():
     return _PROGRAM
 
 
+_ERRORS: list[str] = []
+
+
+def take_errors() -> list[str]:
+    """Analysis errors of the jobs of the last pmap calls (their results are None)."""
+    out = list(dict.fromkeys(_ERRORS))
+    _ERRORS.clear()
+    return out
+
+
+def _safe(fn: Callable[[Any, Any], Any], prog: Any, job: Any) -> Any:
+    from .errors import AnalysisError
+
+    try:
+        return fn(prog, job)
+    except AnalysisError as e:
+        return {"__analysis_error__": str(e)[:500]}
+    except RecursionError as e:
+        return {"__analysis_error__": f"recursion limit: {e}"}
+
+
 def _run_chunk(args: tuple) -> list:
     fn, chunk = args
     prog = program()
-    return [fn(prog, job) for job in chunk]
+    return [_safe(fn, prog, job) for job in chunk]
+
+
+def _strip(results: list) -> list:
+    out = []
+    for r in results:
+        if isinstance(r, dict) and "__analysis_error__" in r:
+            _ERRORS.append(r["__analysis_error__"])
+            out.append(None)
+        else:
+            out.append(r)
+    return out
 
 
 def pmap(fn: Callable[[Any, Any], Any], jobs: list, min_parallel: int = 24) -> list:
@@ -28,7 +60,7 @@ def pmap(fn: Callable[[Any, Any], Any], jobs: list, min_parallel: int = 24) -> l
     workers = min(16, os.cpu_count() or 1)
     if os.environ.get("JSTAT_SERIAL") or workers <= 1 or len(jobs) < min_parallel:
         prog = program()
-        return [fn(prog, j) for j in jobs]
+        return _strip([_safe(fn, prog, j) for j in jobs])
     n = workers * 3
     chunks = [jobs[i::n] for i in range(n)]
     out: list = [None] * len(jobs)
@@ -36,4 +68,4 @@ def pmap(fn: Callable[[Any, Any], Any], jobs: list, min_parallel: int = 24) -> l
         for ci, part in enumerate(ex.map(_run_chunk, [(fn, c) for c in chunks])):
             for j, r in enumerate(part):
                 out[ci + j * n] = r
-    return out
+    return _strip(out)
